@@ -88,7 +88,7 @@ FUNCS = {'calls': ['leaf', 'mid'], 'recursion': ['fact', 'fib'], 'exceptions': [
          'finalizers': ['use'], 'finalizers_nogc': ['use'], 'classes': ['deposit', 'fee', 'inc'], 'data': ['build', 'mutate'], 'loops': ['scan'],
          'ghost': ['handle', 'helper'], 'tracking_dicts': ['configure'], 'owned_exception': ['parse'],
          'one_shot': ['prepare', 'gen'], 'del_order': ['main'], 'closure_threads': ['audit', 'deposit'],
-         'modbody': ['helper', 'size', '<module>', 'Shelf'], 'spy': ['look']}
+         'modbody': ['helper', 'size', '<module>', 'Shelf'], 'spy': ['look'], 'interp_state': ['report']}
 
 
 def random_tp(rng, prog, idx):
@@ -188,6 +188,12 @@ def corpus():
          'tps': [{'id': 'tp0', 'kind': 'snapshot', 'mark': 'C', 'fire_count': '-1', 'frame_type': 'all_frame', 'watches': ['slots']},
                  {'id': 'tp1', 'kind': 'snapshot', 'mark': 'D', 'fire_count': '-1', 'watches': ['__qualname__', 'locals()']},
                  {'id': 'tp2', 'kind': 'snapshot_log', 'mark': 'N', 'fire_count': '-1', 'log_msg': 't={total}'}]},
+        # the host sets process-wide interpreter state of its own (digit limit, recursion limit, …) and holds an int just
+        # past ITS digit limit in a collected frame: the state is compared after the run
+        {'kind': 'scenario', 'prog': 'interp_state', 'inp': 1,
+         'tps': [{'id': 'tp0', 'kind': 'snapshot_log', 'mark': 'A', 'fire_count': '-1', 'frame_type': 'all_frame',
+                  'watches': ['big', 'n'], 'log_msg': 'big={big}'},
+                 {'id': 'tp1', 'kind': 'snapshot', 'mark': 'B', 'fire_count': '-1', 'watches': ['big']}]},
         # a recording host object as a local, a list item and a dict value: snapshot (all frames) + watches + log template +
         # metric expression + condition on it; every dunder the agent touches is checked (oracle + host-touch table)
         {'kind': 'scenario', 'prog': 'spy', 'inp': 1,
@@ -287,10 +293,33 @@ def canon_val(v):
     return repr(v)
 
 
+def interp_state():
+    """process-wide / thread-wide interpreter state a host may have set and the agent must leave alone"""
+    import decimal
+    st = {'recursionlimit': sys.getrecursionlimit(), 'switchinterval': round(sys.getswitchinterval(), 6),
+          'decimal_prec': decimal.getcontext().prec, 'decimal_rounding': decimal.getcontext().rounding,
+          'dont_write_bytecode': sys.dont_write_bytecode, 'gc_enabled': gc.isenabled(), 'gc_threshold': list(gc.get_threshold()),
+          'excepthook_is_default': sys.excepthook is sys.__excepthook__,
+          'displayhook_is_default': sys.displayhook is sys.__displayhook__,
+          'profile_is_none': sys.getprofile() is None, 'threading_profile_is_none': threading.getprofile() is None
+          if hasattr(threading, 'getprofile') else None}
+    if hasattr(sys, 'get_int_max_str_digits'):
+        st['int_max_str_digits'] = sys.get_int_max_str_digits()
+    return st
+
+
+def _restore_interp(saved):
+    sys.setrecursionlimit(saved['recursionlimit'])
+    sys.setswitchinterval(saved['switchinterval'])
+    if 'int_max_str_digits' in saved:
+        sys.set_int_max_str_digits(saved['int_max_str_digits'])
+
+
 def run_host(mod, inp, trace=None, after=None, nogc=False):
     """run main(inp, emit) on a fresh thread; `trace` = the trace function to install (None: untraced).
     nogc: the cyclic collector is switched off while the host runs (known-finding stream: only reference counting)"""
     res = {'out': []}
+    saved = interp_state()
     if nogc:
         gc.collect()
         gc.disable()
@@ -304,6 +333,7 @@ def run_host(mod, inp, trace=None, after=None, nogc=False):
             except BaseException as e:      # noqa: B902
                 res['exc'] = [type(e).__name__, canon_val(e.args)]
                 del e
+            res['interp'] = interp_state()      # as the host (and the agent, if attached) left it, in the host's thread
             if after is not None:
                 after(res)
         finally:
@@ -315,6 +345,7 @@ def run_host(mod, inp, trace=None, after=None, nogc=False):
     finally:
         if nogc:
             gc.enable()
+        _restore_interp(saved)
     if t.is_alive():
         raise core.Infra('host program did not finish in 60 s')
     return res
@@ -494,7 +525,7 @@ def agent_run(case, fault):
             eff(tp)['metrics'].append([name, detail[0], detail[1], repr(detail[2])])
         elif cb in ('create_span', 'close'):
             eff(detail)['spans'].append([name, cb])
-    host = {k: res.get(k) for k in ('ret', 'exc', 'out') if k in res}
+    host = {k: res.get(k) for k in ('ret', 'exc', 'out', 'interp') if k in res}
     return {'host': host, 'trace_kept': bool(info.get('trace_kept')) and bool(info.get('trace_kept_after_probe')),
             'probe_same': n_same >= 1 and info.get('probe_ret') == 11,
             'probe_new': n_all >= n_same + 1 and fresh.get('ret') == 13 and bool(fresh.get('kept')),
